@@ -209,8 +209,10 @@ func script(l *gatedLocker, c *xsync.ContextCond, p Round, out *vk.Outcome, ever
 	start := func(i int) {
 		w := &waiter{gate: make(chan struct{}), done: make(chan struct{})}
 		w.ctx, w.cancel = sk.WithCancel(context.Background())
-		if p.Detached {
+		if p.Detached && i%2 == 0 {
 			w.ctx = sk.Detach(w.ctx)
+		} else if p.Detached {
+			w.ctx = sk.DetachValue(w.ctx) // (a by-value context type that == cannot compare)
 		}
 		if pre(i) {
 			w.cancel()
